@@ -318,6 +318,7 @@ func c15Registry(e *c15env) {
 	type lookup struct {
 		key     string
 		val, ok *ast.Ident
+		keyX    ast.Expr
 	}
 	lookupsIn := func(g *flow.Func) []lookup {
 		var out []lookup
@@ -327,7 +328,7 @@ func c15Registry(e *c15env) {
 					v, _ := as.Lhs[0].(*ast.Ident)
 					o, _ := as.Lhs[1].(*ast.Ident)
 					if v != nil && o != nil {
-						out = append(out, lookup{g.Render(ix.Index), v, o})
+						out = append(out, lookup{g.Render(ix.Index), v, o, ix.Index})
 					}
 				}
 			}
@@ -392,10 +393,28 @@ func c15Registry(e *c15env) {
 	const okDetail = "%d states: entry absent, registered client disconnected, or just closed"
 	const badDetail = "the client table entry is deleted although the registered client may be a live connection (after a take-over the new connection is dropped from delivery)"
 	sites := 0
+	// units: every declared function, and every function literal in it (b.withLock(func() { .. }) — this
+	// rule does not depend on the lock, so a literal is simply judged like a function of its own)
+	type unit struct {
+		fn    *flow.Func
+		decl  *flow.Func
+		isLit bool
+	}
+	var units []unit
 	for _, f := range e.fns {
-		fd := f.Node.(*ast.FuncDecl)
+		units = append(units, unit{f, f, false})
+		ast.Inspect(f.Body, func(n ast.Node) bool {
+			if l, ok := n.(*ast.FuncLit); ok {
+				units = append(units, unit{f.Lit(l), f, true})
+			}
+			return true
+		})
+	}
+	for _, u := range units {
+		f := u.fn
+		fd := u.decl.Node.(*ast.FuncDecl)
 		var dels []*ast.CallExpr
-		for _, call := range calls(fd.Body, false) {
+		for _, call := range calls(f.Body, false) {
 			if b, ok := f.Callee(call).(*types.Builtin); ok && b.Name() == "delete" && len(call.Args) == 2 && e.selects(call.Args[0], e.clientsF) {
 				dels = append(dels, call)
 			}
@@ -415,6 +434,43 @@ func c15Registry(e *c15env) {
 					c.Check(bad == nil, "R-C15-6", cons, pos(c, del), sprintf(okDetail, n), badDetail, witness(bad)...)
 					continue nextDel
 				}
+			}
+			// the lookup and the test live in a predicate helper called with the same key (b.isGone(id)):
+			// judge with the helper interpreted in place
+			for _, g := range e.reachOf(f, 1)[1:] {
+				for _, lk := range lookupsIn(g) {
+					id, ok := ast.Unparen(lk.keyX).(*ast.Ident)
+					if !ok {
+						continue
+					}
+					v, ok := c15objOf(g, id).(*types.Var)
+					if !ok {
+						continue
+					}
+					pi, isRecv, isPar := e.paramIndex(v)
+					if !isPar || isRecv {
+						continue
+					}
+					same := false
+					for _, call := range calls(f.Body, false) {
+						if o, _ := c15callee(f, call); o == e.obj(g) {
+							if args := c15args(f, call); pi < len(args) && f.Render(ast.Unparen(args[pi])) == k {
+								same = true
+							}
+						}
+					}
+					if !same {
+						continue
+					}
+					if n, bad := judge(f, g, del, lk); n > 0 {
+						c.Check(bad == nil, "R-C15-6", cons, pos(c, del), sprintf(okDetail+" (lookup and test in the helper "+c15declName(g)+", interpreted in place)", n), badDetail, witness(bad)...)
+						continue nextDel
+					}
+				}
+			}
+			if u.isLit {
+				c.Undecide("R-C15-6", cons, pos(c, del), "the client table entry is deleted in a function literal that does not look the registered client up itself")
+				continue
 			}
 			// the key is a parameter and every caller looks the entry up itself: judge from the callers
 			if id, ok := ast.Unparen(del.Args[1]).(*ast.Ident); ok {
